@@ -2,7 +2,7 @@
 From Coq Require Import ZArith List.
 From V Require Import Valid.Hier Valid.FlatRegion Valid.Cons Valid.Run.
 From Coq Require Import Lia.
-From V Require Import Model.Pipe Model.PipeBounded Model.PipeBounded4.
+From V Require Import Model.Pipe Model.PipeBounded Model.PipeBounded4 Model.Graph Model.Edits Model.JoinPath.
 
 Theorem C05_checker_sound : forall g h, cons_check g h = true -> Conserved g h.
 Proof. exact cons_check_sound. Qed.
@@ -29,3 +29,12 @@ Proof.
   split; [apply B0|]. split; [apply B1|apply B2].
 Qed.
 Print Assumptions C05_pipeline_model_le4.
+
+(* the first stage, for ALL graphs (no bound): closing the graph keeps every input block, once, as an
+   original block with its successors in place; an exit may only gain the edge to the common exit *)
+Theorem C05_closing_conserves :
+  forall g top fresh en g',
+    Input g top fresh -> oentry (og g) = Some en -> join_returns g fresh 3 = Ok g' ->
+    Conserved (og g) (ehier top g').
+Proof. exact join_returns_conserved. Qed.
+Print Assumptions C05_closing_conserves.
